@@ -15,7 +15,7 @@ from . import bridge as bridge_mod
 
 VERIF = bridge_mod.VERIF
 OUT = os.path.join(VERIF, 'out')
-EVIDENCE = os.path.join(VERIF, 'evidence')
+EVIDENCE = os.environ.get('VERIF_EVIDENCE_DIR') or os.path.join(VERIF, 'evidence')
 KNOWN = os.path.join(VERIF, 'known_findings.json')
 
 NWORKERS = int(os.environ.get('VERIF_WORKERS', '16'))
